@@ -463,6 +463,20 @@ pub fn gen_nest_opt(rng: &mut Rng, cap: usize, full_depth: bool) -> Case {
         drawn.set(d);
         d
     };
+    // innermost signature: minimal, or with a protected header of several kB (so that every
+    // enclosing level is large too)
+    let big_leaf: Vec<u8> = {
+        let n = *rng.pick(&[4097usize, 5000, 9000]);
+        let mut h = vec![0xa1, 0x04];
+        h.extend(head(2, n as u64));
+        h.resize(h.len() + n, 0x5a);
+        let mut s0 = vec![0x83];
+        s0.extend(head(2, h.len() as u64));
+        s0.extend(h);
+        s0.extend([0xa0, 0x40]);
+        s0
+    };
+    let sig0: &[u8] = if rng.chance(1, 3) { &big_leaf } else { sig0 };
     let (bytes, ty): (Vec<u8>, &str) = match kind {
         0 => {
             let d = depth(rng, 10);
